@@ -208,6 +208,21 @@ theorem quantile_counts_ties (sims : List Rat) (obs : Rat) (hmem : obs ∈ sims)
   unfold quantile
   exact List.countP_pos_iff.mpr ⟨obs, hmem, by simp⟩
 
+/-- **no tolerance**: every simulated statistic strictly above the observed one — by however little — is left
+    out of the numerator: #{s ≤ obs} + #{s > obs} = n.  (A quantile that treats "almost equal" statistics as ties
+    counts some of the second group.) -/
+theorem quantile_no_tolerance (sims : List Rat) (obs : Rat) :
+    (quantile sims obs).1 + sims.countP (fun s => decide (obs < s)) = sims.length := by
+  unfold quantile
+  induction sims with
+  | nil => simp
+  | cons a t ih =>
+    by_cases h : a ≤ obs
+    · have h' : ¬ obs < a := not_lt.mpr h
+      simp [h, h'] at ih ⊢; omega
+    · have h' : obs < a := not_le.mp h
+      simp [h, h'] at ih ⊢; omega
+
 /-- **a seed of 0 is applied** (`if seed is not None`), like every other integer seed -/
 theorem seed_zero_applied : seedApplied (some 0) = true ∧ ∀ s : Int, seedApplied (some s) = true :=
   ⟨rfl, fun _ => rfl⟩
@@ -294,5 +309,6 @@ example : weightsMasked [1, 1 / 2^60, 0] = [1, 1, 1] := by decide +kernel
 example : simulateBinary (weightsMasked [1, 1 / 2^60, 0]) 2 [0, 1/2, 1 - 1/2^53, 1/3] = .exhausted := by
   decide +kernel
 example : quantile [1, 2, 2, 3] 2 = (3, 4) := by decide +kernel
+example : quantile [1, 2, 2 + 1 / 10^15, 3] 2 = (2, 4) := by decide +kernel
 
 end Sampler
